@@ -331,7 +331,30 @@ func (e *Env) optionsRules() {
 		return
 	}
 	// default language: the options value is a fresh allocation (here or in a helper) whose lang is language.English
-	english := func(v ssa.Value) bool {
+	var english func(v ssa.Value) bool
+	english = func(v ssa.Value) bool {
+		// a helper of the package without parameters whose every return is language.English (defaultLanguage())
+		if call, isCall := v.(*ssa.Call); isCall {
+			callee := call.Call.StaticCallee()
+			if callee == nil || callee.Pkg != sf.Pkg || len(call.Call.Args) != 0 || len(callee.Blocks) == 0 {
+				return false
+			}
+			n := 0
+			for _, b := range callee.Blocks {
+				for _, in := range b.Instrs {
+					if r, ok := in.(*ssa.Return); ok {
+						if len(r.Results) != 1 {
+							return false
+						}
+						if _, again := r.Results[0].(*ssa.Call); again || !english(r.Results[0]) {
+							return false
+						}
+						n++
+					}
+				}
+			}
+			return n > 0
+		}
 		u, ok := v.(*ssa.UnOp)
 		if !ok || u.Op != token.MUL {
 			return false
